@@ -317,10 +317,12 @@ RANDOM_WALK = REG.add(Contract(
     loops={0: Loop({**{w: f"walk_{w}(self, meta_molecule, entry['self'].nonbond_matrix.posd, step_count, first_node)" for w in WALK_PARTS},
                     "pre": "pre_state_ok(entry['self'].nonbond_matrix.posd, self, meta_molecule, first_node)",
                     "frame": "walker_frame(self, entry['self']) and METAMOL_eq(meta_molecule, entry['meta_molecule']) and first_node == entry['first_node']",
+                    "directions": "same_rows(vector_bundle, self.vector_sphere)",
                     })},
     spec_fns={"tree_facts": tree_facts, "engine_matches_flags": engine_matches_flags, **{f"walk_{w}": walk_inv(w) for w in WALK_PARTS}, "pre_state_ok": pre_state_ok,
               "all_built": all_built, "others_untouched": others_untouched, "walker_frame": walker_frame,
-              "METAMOL_eq": lambda a, b: METAMOL.eq(a, b), "CNT": CNT, "has": has, "member_def": lambda b: member_def(b)},
+              "METAMOL_eq": lambda a, b: METAMOL.eq(a, b), "CNT": CNT, "has": has, "member_def": lambda b: member_def(b),
+              "same_rows": lambda a, b: z3.And(a.n == b.n, *[x == y for x, y in zip(a.comps, b.comps)])},
     props=("C17", "C04"),
 ))
 
@@ -485,6 +487,7 @@ UPDATE_BODY = REG5.add(Contract(
     spec_fns={"has": has, "accepted_point_ok": accepted_point_ok, "same_posd": same_posd, "walker_frame": walker_frame, "step_from": step_from,
               "bundle_inv": bundle_inv, "member_def": member_def},
     props=("C05", "C07", "C17"),
+    modifies=["self.nonbond_matrix.posd", "self.prev_prob"],
     exposes=dict(new_point=V3, unwrapped_point=V3, last_point=V3, step_length=TReal),
 ))
 
